@@ -36,7 +36,7 @@ type Params struct {
 	// follows a successful connection, so any number of cuts must be survived with MaxRetries 1).
 	MaxRetries int
 	Preempt    int
-	Faults  int
+	Faults     int
 }
 
 func (p Params) Name() string {
